@@ -39,6 +39,63 @@ Parse == /\ IsEvent("parse")
                                              expected |-> ParseSpecT(E, T, e.ins[n]), nbad |-> Cardinality(bad)])
          /\ UNCHANGED <<E, T>>
 
-Next == LoadDef \/ Parse
+\* ---- names: every string-producing derive on one value of variant i (C03, C07) -----------------
+\* the event carries, as records [k, s], what Display ({}), to_string(), AsRef<str>, <&str>::from(value),
+\* <&str>::from(&value), the const into_str() (if const_into_str), and - from a twin enum deriving the
+\* deprecated macros - ToString and AsStaticRef returned
+Fixed(v) == ~v.dis /\ ~v.def /\ ~v.transp
+Names == /\ IsEvent("names")
+         /\ LET e == Rec[l]  v == E.variants[e.i]  c == T.canon[e.i]
+                bad == {k \in 1..Len(e.outs) : e.outs[k].s # c}
+            IN /\ Require(e.def = E.id /\ Fixed(v), l, "names: event outside the property's domain", e.i)
+               /\ Require(Len(e.outs) = e.n /\ e.n > 0, l, "names: malformed event", e.i)
+               /\ Require(bad = {}, l, "names",
+                          [def |-> E.id, variant |-> e.i, canonical |-> c, wrong |-> {e.outs[k] : k \in bad}])
+               /\ Require(E.cis => \E k \in 1..Len(e.outs) : e.outs[k].k = "into_str", l, "names: const into_str missing", e.i)
+         /\ UNCHANGED <<E, T>>
+
+\* VariantNames::VARIANTS: one canonical name per declared variant, in declaration order (C03, C08)
+VNames == /\ IsEvent("vnames")
+          /\ LET e == Rec[l] IN
+               Require(e.def = E.id /\ e.names = T.canon, l, "vnames",
+                       [def |-> E.id, observed |-> e.names, expected |-> T.canon])
+          /\ UNCHANGED <<E, T>>
+
+\* ---- round trip: parse(print(v)) (C02) ---------------------------------------------------------
+\* src: which printer produced s ("display", "as_ref", "into", "sers"); r: the parse result of s
+RoundTrip == /\ IsEvent("rt")
+             /\ LET e == Rec[l]  v == E.variants[e.i] IN
+                /\ Require(e.def = E.id /\ Fixed(v) /\ ~IsSome(E.prefix), l, "rt: event outside the property's domain", e.i)
+                /\ Require(e.r.k = "v" /\ e.r.i = e.i /\ e.r.pd, l, "rt",
+                           [def |-> E.id, variant |-> e.i, src |-> e.src, printed |-> e.s, parsed |-> e.r])
+                /\ Require(IF e.src = "sers" THEN \E k \in 1..Len(T.sp[e.i]) : T.sp[e.i][k] = e.s
+                                              ELSE e.s = T.canon[e.i],
+                           l, "rt: printed string is not the specified one", [variant |-> e.i, src |-> e.src, printed |-> e.s])
+             /\ UNCHANGED <<E, T>>
+
+\* EnumMessage::get_serializations: exactly the spellings, for every variant, disabled or not (C14, C02, C07)
+Sers == /\ IsEvent("sers")
+        /\ LET e == Rec[l] IN
+             Require(e.def = E.id /\ e.sers = T.sp[e.i], l, "sers",
+                     [def |-> E.id, variant |-> e.i, observed |-> e.sers, expected |-> T.sp[e.i]])
+        /\ UNCHANGED <<E, T>>
+
+\* ---- conv: a batch of identifiers renamed by one serialize_all style (C07) ----------------------
+Conv == /\ IsEvent("conv")
+        /\ LET e == Rec[l]
+               bad == {n \in 1..Len(e.ids) : e.outs[n] # Convert(e.style, e.ids[n])}
+           IN /\ Require(e.style \in AcceptedStyles /\ Len(e.outs) = Len(e.ids), l, "conv: malformed event", e.style)
+              /\ IF bad = {} THEN TRUE
+                 ELSE LET n == CHOOSE n \in bad : \A m \in bad : n <= m IN
+                      Mismatch(l, "conv", [style |-> e.style, ident |-> e.ids[n], observed |-> e.outs[n],
+                                           expected |-> Convert(e.style, e.ids[n]), nbad |-> Cardinality(bad)])
+        /\ UNCHANGED <<E, T>>
+
+\* a panic inside generated code is an event no action of the specification produces
+Panicked == /\ IsEvent("panic")
+            /\ Mismatch(l, "panic in generated code", [def |-> Rec[l].def, variant |-> Rec[l].i, msg |-> Rec[l].msg])
+            /\ UNCHANGED <<E, T>>
+
+Next == Panicked \/ LoadDef \/ Parse \/ Names \/ VNames \/ RoundTrip \/ Sers \/ Conv
 Spec == Init /\ [][Next]_vars
 =============================================================================
